@@ -31,6 +31,8 @@ type Engine struct {
 
 	contracts map[string]*ContractFile // by package path
 	ctByFn    map[*ssa.Function]*Contract
+	seqCtByFn map[*ssa.Function]*Contract
+	seqMode   bool // the target is verified in the sequential reading: "func@seq" contracts take precedence
 	fnByName  map[string]map[string]*ssa.Function // pkg path -> display name (without pkg) -> function
 
 	obligations []*Obligation
@@ -78,12 +80,13 @@ type Unit struct {
 	Lemma      *Lemma
 	Pkg        string
 	ghostVars  map[string]Val
+	entryFreeVars map[string]Val // closures verified on their own: entry contents of the captured variables
 	entryLocks []string
 }
 
 func newEngine(repo string) *Engine {
 	return &Engine{repo: repo, spkgs: map[string]*ssa.Package{}, repoPkgs: map[string]bool{}, files: map[*token.File]*ast.File{},
-		contracts: map[string]*ContractFile{}, ctByFn: map[*ssa.Function]*Contract{}, fnByName: map[string]map[string]*ssa.Function{},
+		contracts: map[string]*ContractFile{}, ctByFn: map[*ssa.Function]*Contract{}, seqCtByFn: map[*ssa.Function]*Contract{}, fnByName: map[string]map[string]*ssa.Function{},
 		funcIDs: map[string]int{}, globalIDs: map[string]int{}, siteOcc: map[siteKey][]ssa.Instruction{}, loops: map[*ssa.Function]map[*ssa.BasicBlock]*loopInfo{},
 		unsupportedSeen: map[string]bool{}, unmodelled: map[string]bool{}, unmodelledIface: map[string]bool{}, inlined: map[string]bool{}, calledByContract: map[string]bool{}, execContracts: map[*Contract]bool{}, stableDone: map[string]bool{}, inlineOnly: map[string]bool{},
 		specErrors: map[string]bool{}, specFuncsDefined: map[string]*definedSpecFunc{}, usedLibModels: map[string]bool{}, assumptions: map[string]bool{},
@@ -174,6 +177,11 @@ func (e *Engine) load(moduleDir string) error {
 			}
 			e.ctByFn[fn] = ct
 		}
+		for name, ct := range cf.SeqFuncs {
+			if fn := e.fnByName[path][name]; fn != nil {
+				e.seqCtByFn[fn] = ct
+			}
+		}
 	}
 	return nil
 }
@@ -211,7 +219,14 @@ func (e *Engine) indexFunctions(path string, sp *ssa.Package) {
 	}
 }
 
-func (e *Engine) contractFor(fn *ssa.Function) *Contract { return e.ctByFn[fn] }
+func (e *Engine) contractFor(fn *ssa.Function) *Contract {
+	if e.seqMode {
+		if ct, ok := e.seqCtByFn[fn]; ok {
+			return ct
+		}
+	}
+	return e.ctByFn[fn]
+}
 
 func (e *Engine) pkgOf(fn *ssa.Function) *types.Package {
 	for fn.Parent() != nil {
